@@ -290,11 +290,104 @@ def rule_with_exit(run):
     c03.rule_with_exit(run)
 
 
+def rule_return_paths(run):
+    run.begin(
+        "C01.i",
+        "compound statements of the traced program hand the return paths of ALL their sub-blocks upwards (a `return` "
+        "inside a loop / branch of an awaited coroutine must reach the enclosing call, which wires its continuation)",
+        floor=3,
+    )
+    OUT = "cohdl/_compiler/frontend/_prepare_ast_out.py"
+    om = run.idx.mod(OUT)
+    n = 0
+    for cname in om.classes:
+        if "." in cname:
+            continue
+        init = om.functions.get(f"{cname}.__init__")
+        if init is None:
+            continue
+        blocks = [a.arg for a in init.node.args.args if a.annotation is not None and "CodeBlock" in src(a.annotation) and "list" not in src(a.annotation) and "tuple" not in src(a.annotation)]
+        bases = [dotted(b) for b in om.classes[cname].bases]
+        if not blocks or not any(b in ("Statement", "Expression") for b in bases):
+            continue
+        sup = [c for c in calls_in(init.node) if isinstance(c.func, ast.Attribute) and c.func.attr == "__init__" and isinstance(c.func.value, ast.Call) and dotted(c.func.value.func) == "super"]
+        if len(sup) != 1:
+            continue
+        c = sup[0]
+        rp = None
+        for k in c.keywords:
+            if k.arg == "return_paths":
+                rp = k.value
+        if rp is None and len(c.args) >= 2:
+            rp = c.args[1]
+        if rp is None:
+            continue
+        text = src(rp)
+        # resolve a local name through its assignments in __init__
+        if isinstance(rp, ast.Name):
+            text = " ; ".join(src(a.value) for a in walk_local(init.node) if isinstance(a, (ast.Assign, ast.AugAssign)) and dotted(a.targets[0] if isinstance(a, ast.Assign) else a.target) == rp.id)
+            text += " ; " + " ; ".join(src(x) for x in walk_local(init.node) if isinstance(x, ast.Call) and isinstance(x.func, ast.Attribute) and dotted(x.func.value) == rp.id)
+        def aliases(b):
+            """locals (and loop variables) whose value derives from parameter b"""
+            al = {b, f"self._{b}"}
+            for _ in range(4):
+                for a in walk_local(init.node):
+                    if isinstance(a, ast.Assign) and isinstance(a.targets[0], ast.Name) and any((dotted(x) or "") in al for x in ast.walk(a.value)):
+                        al.add(a.targets[0].id)
+                    if isinstance(a, (ast.For, ast.comprehension)) and any((dotted(x) or "") in al for x in ast.walk(a.iter)):
+                        for t in ast.walk(a.target):
+                            if isinstance(t, ast.Name):
+                                al.add(t.id)
+            return al
+        for b in blocks:
+            ok = any(f"{x}.return_paths()" in text for x in aliases(b))
+            n += 1
+            run.ob(ok, f"out.{cname}.__init__", file=om.rel, line=c.lineno, detail=f"forwards-{b}", expected=f"return paths of `{b}` are part of the statement's return paths", found=text[:90])
+    if n < 3:
+        raise AnalysisError(f"compound out.* statements not recognised ({n})")
+    run.end()
+
+
+def rule_empty_block(run):
+    run.begin(
+        "C01.j",
+        "CodeBlock.empty(): a block counts as empty iff it holds nothing but comments (abstract evaluation) - the "
+        "await-at-start special case is keyed on it, so a block with real statements next to a comment is NOT empty",
+        floor=5,
+    )
+    from ..absint import Interp, Reject
+    irr = run.idx.mod(IRR)
+    f = irr.func("CodeBlock.empty")
+
+    class Comment:
+        pass
+
+    class Stmt:
+        pass
+
+    class Nop:
+        pass
+
+    class _Blk:
+        def __init__(self, c):
+            self._content = c
+
+    prims = {"isinstance": lambda v, t: isinstance(v, t if isinstance(t, (type, tuple)) else ()), "Comment": Comment, "Nop": Nop, "len": len, "all": all, "any": any}
+    for content, exp, name in (([], True, "[]"), ([Comment()], True, "[comment]"), ([Comment(), Comment()], True, "[comment, comment]"), ([Stmt()], False, "[stmt]"),
+                               ([Comment(), Stmt()], False, "[comment, stmt]"), ([Stmt(), Comment()], False, "[stmt, comment]"), ([Nop()], False, "[nop]"), ([Comment(), Nop()], False, "[comment, nop]")):
+        try:
+            got = Interp(irr, dict(prims)).call_function("CodeBlock.empty", _Blk(content))
+        except Reject as e:
+            got = f"rejected: {e}"
+        run.ob(got is exp, "CodeBlock.empty", file=irr.rel, line=f.node.lineno, detail=name, expected=str(exp), found=str(got))
+    run.end()
+
+
 def rule_if_merge(run):
     c03.rule_if_merge(run)
 
 
-RULES = [rule_transitions, rule_states, rule_edges, rule_fail_closed, rule_loop_state, rule_clock_costs, rule_if_merge, rule_straight_line, rule_with_exit]
+RULES = [rule_transitions, rule_states, rule_edges, rule_fail_closed, rule_loop_state, rule_clock_costs, rule_if_merge, rule_straight_line, rule_with_exit, rule_return_paths, rule_empty_block]
 LEVEL = "other"
 EXPLANATION = (
     "Only the structural core of the coroutine->state-machine translation is decided: transitions are front-inserted "
